@@ -1127,6 +1127,10 @@ fn insert_generic_with(
 /// (removed earlier, or left behind by a loop that has been dropped).
 fn reinsert_kept(sim: &Sim, id: Id) {
     let Some(h) = handle(sim) else { return };
+    enum D {
+        G(Dispatcher<'static, GenSrc, Tag>),
+        T(Dispatcher<'static, TimerSrc, Tag>),
+    }
     let disp = {
         let st = sim.st.borrow();
         let Some(s) = st.srcs.get(&id) else { return };
@@ -1134,18 +1138,24 @@ fn reinsert_kept(sim: &Sim, id: Id) {
             return;
         }
         match &s.k {
+            // a timer the program kept (its deadline is an absolute instant: it goes on in
+            // whichever loop it is registered with next)
+            K::Timer(t) if !sim.hk.borrow().in_dispatch => t.disp.clone().map(D::T),
             K::Generic(g) if !g.released && !g.unusable => {
                 // two live sources never share an fd (that would be the program's bug)
                 if st.srcs.iter().any(|(i, o2)| *i != id && (o2.inserted || o2.in_processing > 0) && matches!(&o2.k, K::Generic(g2) if Rc::ptr_eq(&g2.own.0, &g.own.0))) {
                     return;
                 }
-                g.disp.clone()
+                g.disp.clone().map(D::G)
             }
             _ => None,
         }
     };
     let Some(disp) = disp else { return };
-    let r = guarded(sim, "register_dispatcher", || h.register_dispatcher(disp).map_err(|e| e.to_string()));
+    let r = guarded(sim, "register_dispatcher", || match disp {
+        D::G(d) => h.register_dispatcher(d).map_err(|e| e.to_string()),
+        D::T(d) => h.register_dispatcher(d).map_err(|e| e.to_string()),
+    });
     let Some(r) = r else { return };
     let fault = std::mem::replace(&mut sim.hk.borrow_mut().fault_window, false);
     let now = sim.now_ns();
